@@ -202,6 +202,10 @@ VARIANTS: List[Tuple[str, str, str, str, str, str, str]] = [
 
 TYPED_VARIANTS: List[Tuple[str, str, str, str, str, str, str]] = [
     # these need a mypy run per variant (about 30 s each)
+    ("C10", B, "score written by truthiness", "antismash/common/secmet/features/antismash_feature.py",
+     "        if self.score is not None:", "        if self.score:", "R10.8"),
+    ("C10", N, "optional string written by truthiness stays fine", "antismash/common/secmet/features/antismash_feature.py",
+     "        if self.score is not None:", "        if not self.score is None:", ""),
     ("C17", B, "F5 reintroduced", REF, "        refined = sorted(results, key=lambda result: (result.query_start, -result.bitscore, result.query_end,\n                                                      result.hit_id, result.evalue))",
      "        refined = sorted(list(results), key=lambda result: result.query_start)", "R17.1"),
     ("C05", B, "F10 loop over set reintroduced", FORM, "    for cluster in sorted(set(unassigned)):", "    for cluster in set(unassigned):", "R05.3"),
@@ -313,7 +317,7 @@ def jobs_for(prop: str, repo_root: str, typed: bool) -> List[tuple]:
 
 def run(prop: str, repo_root: str) -> int:
     start = time.time()
-    typed = prop in ("C05", "C13", "C17")
+    typed = prop in ("C05", "C10", "C13", "C17")
     jobs = jobs_for(prop, repo_root, typed)
     if not jobs:
         print(f"selftest property={prop}: no variants registered")
